@@ -144,6 +144,13 @@ def stream_cases(thorough):
         list(zip(BAD_LINES, BAD_LINES[1:] + BAD_LINES[:1]))
     for (n1, r1), (n2, r2) in pairs:
       cases.append((kind, [n1, n2], 1, [r1 + b'\n', r2 + b'\n'], False))
+    # the same malformed line twice in a row (a client that repeats itself; whatever the first one left behind in the
+    # connection must not make the second one - or the valid line after it - come out differently), first on a fresh
+    # connection and after a valid line
+    for name, raw in BAD_LINES:
+      if len(raw) < 100:
+        for pos in (0, 1):
+          cases.append((kind, [name, name + '-again'], pos, [raw + b'\n', raw + b'\n'], False))
   cases.append(('line', [OVERLONG_LINE[0]], 1, [OVERLONG_LINE[1] + b'\n'], True))
   for name, body in bad_frames():
     for pos in (0, 1, 2):
